@@ -19,7 +19,9 @@ CHECK = dict(
           "valuations per expression; distinct = distinct alpha-renamed shapes"),
     assumptions=["refsem.py is miasm's evaluation (tied to constant folding by C03); it is cross-checked "
                  "here against an independent z3 bit-vector encoding",
-                 "z3 decides the ground queries correctly; 'unknown' answers are counted, not verdicts",
+                 "a disagreement is reported only when z3's solver (sat + model) and z3's rewriter (ground "
+                 "evaluation) both say so; contradictory or 'unknown' answers are counted, never verdicts "
+                 "(z3-solver 5.1 answers sat with a non-model on nested rotations of non power-of-two width)",
                  "valuations are sampled; division/modulo by zero valuations are skipped",
                  "memory arrays are named mem<address size> as documented by Z3Mem"],
     timeout={"quick": 900, "thorough": 3600},
@@ -56,23 +58,54 @@ class Z3Oracle(object):
             cons.append(z3.Select(arr, z3.BitVecVal(addr, psize)) == z3.BitVecVal(byte, 8))
         return cons
 
+    def ground(self, term, env):
+        """value of @term with the pinned identifiers / memory cells substituted,
+        computed by z3's rewriter (no solver); None when it does not reduce"""
+        z3 = self.z3
+        subs = []
+        for ident, val in env.ids.items():
+            subs.append((z3.BitVec(str(ident), ident.size), z3.BitVecVal(val, ident.size)))
+        arrays = {}
+        for (psize, addr), byte in sorted(xc.mem_cells(env).items()):
+            arr = arrays.get(psize)
+            if arr is None:
+                arr = z3.K(z3.BitVecSort(psize), z3.BitVecVal(0, 8))
+            arrays[psize] = z3.Store(arr, z3.BitVecVal(addr, psize), z3.BitVecVal(byte, 8))
+        for psize, arr in arrays.items():
+            subs.append((z3.Array("mem%d" % psize, z3.BitVecSort(psize), z3.BitVecSort(8)), arr))
+        try:
+            val = z3.simplify(z3.substitute(term, *subs)) if subs else z3.simplify(term)
+        except z3.Z3Exception:
+            return None
+        if z3.is_bv_value(val):
+            return val.as_long()
+        return None
+
     def differs(self, term, env, want, size):
-        """-> ('unsat'|'sat'|'unknown', model value or None)"""
+        """-> (status, value).  'unsat': the term equals @want under the pins;
+        'sat': it differs (solver model AND ground evaluation say so; value is
+        the term's value); 'unknown': solver gave up; 'anomaly': solver and
+        rewriter of z3 contradict each other (counted, never a verdict)"""
         z3 = self.z3
         s = self.solver
+        g = self.ground(term, env)
         s.push()
         try:
             s.add(*self.pins(env))
             s.add(term != z3.BitVecVal(want, size))
             r = s.check()
             if r == z3.unsat:
+                if g is not None and g != want:
+                    return "anomaly", g
                 return "unsat", None
             if r == z3.sat:
                 v = s.model().eval(term, model_completion=True)
                 try:
                     v = v.as_long()
                 except Exception:
-                    v = str(v)
+                    v = None
+                if v is None or v == want or (g is not None and g == want):
+                    return "anomaly", v
                 return "sat", v
             return "unknown", None
         finally:
@@ -183,7 +216,7 @@ def run_shard(params, rec):
                 rec.count("queries_with_memory")
                 if any(nb > 1 for _, nb, _ in env.reads):
                     rec.count("queries_multibyte_%s" % ("big" if big else "little"))
-            if st == "unknown":
+            if st in ("unknown", "anomaly"):
                 continue
             if st == "unsat":
                 if len(rec.samples) < 4 and i % 97 == 0:
@@ -208,7 +241,7 @@ def report(rec, oracle, e, env, want, got, big):
             st, val = oracle.differs(t2, env2, w2, node.size)
         except Exception:
             continue
-        if st == "unknown":
+        if st in ("unknown", "anomaly"):
             continue
         ok[node] = (st == "unsat")
         info[node] = (w2, val)
@@ -234,8 +267,10 @@ def floors(tier, counters, evaluations):
     for k in ACCEPTED:
         if counters.get("q:" + k, 0) < 100:
             miss.append("operator kind %s reached only %d solver queries (<100)" % (k, counters.get("q:" + k, 0)))
-    if counters.get("answer:unknown", 0) > 0.02 * max(1, counters.get("queries", 0)):
-        miss.append("more than 2%% of the queries were not decided by the solver (%d)" % counters["answer:unknown"])
+    undecided = counters.get("answer:unknown", 0) + counters.get("answer:anomaly", 0)
+    if undecided > 0.02 * max(1, counters.get("queries", 0)):
+        miss.append("more than 2%% of the queries were not decided (solver gave up or contradicted z3's own "
+                    "evaluator): %d" % undecided)
     for end in ("big", "little"):
         if counters.get("queries_multibyte_" + end, 0) < 50:
             miss.append("fewer than 50 %s-endian multi-byte memory reads checked" % end)
